@@ -1404,3 +1404,33 @@ def unsafe_identifier_prefixes(repo):
         if not ok:
             bad.append((fn, call, why))
     return len(sites), bad
+
+
+# ---------------------------------------------------------------------------
+# calls of emitted functions on a copy of the caller's variable scope
+
+
+def scoped_call(lin, pattern):
+    """Index of the fragment that contains a call matching ``pattern`` --
+    whose scope argument is written ``_C`` -- such that the argument is a
+    copy of the caller's scope: ``econtext.copy()`` itself, or a per-node
+    generated local that an earlier fragment binds to ``econtext.copy()``.
+    -> (index, key of that local or None); (-1, None) if there is none."""
+    copies = {}
+    for i, (it, conds, path) in enumerate(lin.rows):
+        if not isinstance(it, A.Frag):
+            continue
+        for node, b in frag_find(it, "_C = econtext.copy()"):
+            if isinstance(b["_C"], ast.Name):
+                v = slot_value(it, b["_C"])
+                if v is not None and A.per_node(v)[0]:
+                    copies[name_key(it, b["_C"])] = i
+        for node, b in frag_find(it, pattern, "expr"):
+            c = b["_C"]
+            if src(c) == "econtext.copy()":
+                return i, None
+            if isinstance(c, ast.Name):
+                k = name_key(it, c)
+                if k in copies and copies[k] < i:
+                    return i, k
+    return -1, None
